@@ -33,6 +33,8 @@ pub enum Distractor {
     ExtraTags,
     /// other tag lines (xref, property_value) between the is_a lines of a stanza
     TagsBetweenIsA,
+    /// non-obsolete terms carry an explicit `is_obsolete: false` line (a legal OBO boolean)
+    ExplicitNotObsolete,
     /// no `data-version` line in the header
     MissingDataVersion,
     /// extra header lines (saved-by, subsetdef, ontology, property_value ...)
@@ -108,6 +110,8 @@ pub fn render(f: &Facts, o: &JaxOpts) -> Rendered {
         }
         if t.obsolete {
             s.push_str("is_obsolete: true\n");
+        } else if o.has(&Distractor::ExplicitNotObsolete) {
+            s.push_str("is_obsolete: false\n");
         }
         if let Some(r) = t.replacement {
             s.push_str(&format!("replaced_by: {}\n", hp(r)));
